@@ -227,7 +227,7 @@ def saturate(eqs, targets, rounds=2, maxdeg=6, max_lemmas=40000, ineqs=(), pairs
     return lemmas
 
 
-def prove(ctx: Ctx, goals, rounds=2, maxdeg=6, timeout_ms=20000, extra=(), products=False, reduction=True, max_lemmas=40000, fallback=True):
+def prove(ctx: Ctx, goals, rounds=2, maxdeg=6, timeout_ms=20000, extra=(), products=False, reduction=True, max_lemmas=8000, fallback=True):
     """decide every goal; sets goal.status in {'proved','open'}"""
     t0 = time.time()
     eqs = [a.p for a in ctx.assumptions if a.kind == "eq"]
@@ -355,8 +355,11 @@ class Reducer:
     def __init__(self, ctx: Ctx, extra=()):
         self.ctx = ctx
         self.defs = {}  # alias var index -> (Poly definition, assumption poly)
+        self.defs2 = {}  # alias var index -> (factorised form from a stub contract, assumption poly)
+        self.defs2_rule = {}  # alias var index -> index of the same contract equation in self.rules
         self.rules = []  # (h_normalised, [(m, mask, coeff)], derivation [Poly])
         self.unit = {}  # var -> assumption poly v^2 - 1   (sign-like variables)
+        self.subst = {}  # var -> (replacement var, assumption poly  var - replacement)
         eqs = [a for a in ctx.assumptions if a.kind == "eq"] + [a for a in ctx.path_assumptions() if a.kind == "eq"] + [a for a in extra if a.kind == "eq"]
         rest = []
         for a in eqs:
@@ -368,6 +371,16 @@ class Reducer:
                 if len(m) == 1 and m[0][1] == 2 and h.t[m] == -h.t[ONE]:
                     self.unit[m[0][0]] = h.scale(1 / h.t[m])
                     continue
+            if len(h.t) == 2 and ONE not in h.t:
+                (m1, c1), (m2, c2) = h.t.items()
+                if len(m1) == 1 and len(m2) == 1 and m1[0][1] == 1 and m2[0][1] == 1 and c1 == -c2:
+                    # v1 - v2 == 0 : substitute the later variable by the earlier one
+                    va, vb = m1[0][0], m2[0][0]
+                    hi_, lo_ = (va, vb) if va > vb else (vb, va)
+                    if hi_ not in self.subst and lo_ not in self.subst:
+                        hp = h.scale(1 / (c1 if va == hi_ else c2))  # coefficient +1 on the substituted variable
+                        self.subst[hi_] = (lo_, hp)
+                        continue
             rest.append(a)
         for a in rest:
             h = a.p
@@ -380,12 +393,22 @@ class Reducer:
                         break
                 if done:
                     continue
+            if "M = U S V^H" in a.tag or "A B = I" in a.tag:
+                # a stub contract whose input entry was let-bound: usable as a second definition of that alias
+                singles = [(m, c) for m, c in h.t.items() if len(m) == 1 and m[0][1] == 1 and abs(c) == 1 and ctx.vars[m[0][0]].name.startswith("al")]
+                if len(singles) == 1 and "M = U S V^H" in a.tag:
+                    (m, c), = singles
+                    self.defs2[m[0][0]] = (Poly({mm: -cc / c for mm, cc in h.t.items() if mm != m}), h.scale(1 / c))
             hn, der = self.norm_units(h)
             if not hn.t:
                 continue
             mons = [(m, _mask(m), c) for m, c in hn.t.items() if m]
             if mons:
                 self.rules.append((hn, mons, [h] + der))
+                if "M = U S V^H" in a.tag:
+                    for m_, c_ in h.t.items():
+                        if len(m_) == 1 and m_[0][1] == 1 and abs(c_) == 1 and m_[0][0] in self.defs2:
+                            self.defs2_rule.setdefault(m_[0][0], set()).add(len(self.rules) - 1)
         self.by_var = {}
         for ri, (h, mons, der) in enumerate(self.rules):
             for v in h.vars():
@@ -393,7 +416,7 @@ class Reducer:
 
     def norm_units(self, p: Poly):
         """rewrite v^e -> v^(e mod 2) for sign-like variables; returns (p', lemmas) with p' = p - sum(lemmas)"""
-        if not self.unit:
+        if not self.unit and not self.subst:
             return p, []
         lemmas = []
         changed = True
@@ -401,6 +424,18 @@ class Reducer:
             changed = False
             for t, c in list(p.t.items()):
                 for v, e in t:
+                    if v in self.subst and e >= 1:
+                        w, hp = self.subst[v]
+                        d = dict(t)
+                        d[v] = e - 1
+                        if d[v] == 0:
+                            del d[v]
+                        q = tuple(sorted(d.items()))
+                        lem = hp.mul_mono(q, c)  # c*q*(v - w)
+                        p = p - lem
+                        lemmas.append(lem)
+                        changed = True
+                        break
                     if v in self.unit and (e >= 2 or e <= -1):
                         d = dict(t)
                         if e >= 2:
@@ -427,6 +462,8 @@ class Reducer:
         t_start = time.time()
         p, l0 = self.norm_units(p)
         used += l0
+        tried2 = set()
+        disabled = set()  # contract equations already used to unfold an alias must not fold it back
         for level in range(unfold_levels + 1):
             progress = True
             last_rule = None
@@ -438,7 +475,7 @@ class Reducer:
                 cand = set()
                 for v in pv:
                     cand.update(self.by_var.get(v, ()))
-                cand = sorted(cand)
+                cand = sorted(c_ for c_ in cand if c_ not in disabled)
                 if last_rule is not None and last_rule in cand:
                     cand.remove(last_rule)
                     cand.insert(0, last_rule)
@@ -481,11 +518,17 @@ class Reducer:
                     progress = True
             if not p.t:
                 break
-            al = [v for v in p.vars() if v in self.defs]
+            al2 = [v for v in p.vars() if v in self.defs2 and v not in tried2]
+            al = al2 or [v for v in p.vars() if v in self.defs]
             if not al or level == unfold_levels:
                 break
             for v in al:
-                P, h = self.defs[v]
+                if al2:
+                    tried2.add(v)
+                    disabled.update(self.defs2_rule.get(v, ()))
+                    P, h = self.defs2[v]
+                else:
+                    P, h = self.defs[v]
                 guard = 0
                 changed = True
                 while changed and guard < 6:
@@ -540,6 +583,11 @@ def prove_eq_by_reduction(ctx: Ctx, goals, timeout_ms=20000, extra=(), rounds=2,
             for hi, q in pairs:
                 for d in rule_der[hi]:
                     extra_lemmas.append(d.mul_mono(q))
+            # multiplier 1: the (normalised) assumptions that share a monomial with the remainder
+            rm = set(rem.t.keys())
+            for hi, rp in enumerate(rule_polys):
+                if rm & set(rp.t.keys()):
+                    extra_lemmas.extend(rule_der[hi])
         L = Lin(ctx, timeout_ms=timeout_ms)
         for lem in used:
             L.s.add(L.atom("eq", lem))
